@@ -63,8 +63,25 @@ def interleave_cases():
                     res.append(R.ob(name, 'interleave', R.PROVED, 'result bit %d*i + k is bit i of operand k for every %d*i + k < %d, the remaining bits are zero' % (n, n, wo), kernel=k.source()))
                 else:
                     real = all(tm.slice_(t, j, 1).op in ('slice', 'in', 'const') for j, _, _ in bad)
+                    wtxt = ''
+                    if not real:
+                        # a differing bit that is not a plain selection: the derived term evaluated exactly at the one-hot input that should set only that result bit
+                        from laneflow import ceval as CE
+                        for j, _, _ in bad:
+                            kk, i = j % n, j // n
+                            if i >= keep:
+                                continue
+                            env = {tm.inp(names[q], 0, wi): ((1 << i) if q == kk else 0) for q in range(n)}
+                            try:
+                                got = CE.evaluate(t, env)
+                            except CE.NoValue:
+                                continue
+                            if got != 1 << j:
+                                real = True
+                                wtxt = ' ; with bit %d of operand %d set and nothing else the result is %#x instead of %#x' % (i, kk, got, 1 << j)
+                                break
                     res.append(R.ob(name, 'interleave', R.REFUTED if real else R.UNDECIDED,
-                                    'result bit %d is %s, the documented placement puts %s there (%d bits differ)' % (bad[0][0], bad[0][1], bad[0][2], len(bad)), where=R.where_of(it, t), kernel=k.source()))
+                                    'result bit %d is %s, the documented placement puts %s there (%d bits differ)%s' % (bad[0][0], bad[0][1], bad[0][2], len(bad), wtxt), where=R.where_of(it, t), kernel=k.source()))
                 return res
             cs.append(R.Case(name, [k], judge))
     # vec2 forms and the round trip
